@@ -503,6 +503,16 @@ func cases(tier string) []kase {
 				k.Lead = lead
 				out = append(out, k)
 			}
+			// a literal entity in FRONT of the token, and on both sides (what follows the specially treated
+			// &nbsp; must be escaped like everything else)
+			for _, lead := range []string{"a&nbsp;", "&nbsp;&nbsp;", "&amp;"} {
+				k := out[i]
+				k.Lead = lead
+				out = append(out, k)
+			}
+			kb := out[i]
+			kb.Lead, kb.Suffix = "a&nbsp;", "&nbsp;z"
+			out = append(out, kb)
 			// in parentheses: a DATE of that shape is a date phrase, kept as written
 			kp := out[i]
 			kp.Lead, kp.Suffix = "(", ")"
@@ -585,7 +595,7 @@ func main() {
 		Rule: "cases: " + fmt.Sprint(len(positions)) + " value positions of a document template (record pointers, NAME and every name part, TYPE, SEX, event values, DATE, PLAC with FORM/MAP/LATI/LONG, NOTE, OCCU/EDUC/custom attributes, _UID, source title and properties at two depths, citation PAGE) each tainted alone, all together and none (control) x " + fmt.Sprint(len(surfaces())) + " surfaces: every page of a full publish under show/hide/placeholder, the diff report (3 -show values x tainted left/right/both), HTML query output for 11 queries (nodes, lists, objects, strings, warnings) and Warnings.WriteHTMLTo. Every page is tokenized by a strict tokenizer and checked for nesting; every occurrence of a taint token must lie in a text node or a quoted attribute value with < > & in escaped form, never in a tag or attribute name, an unquoted value, a script/style element, a comment, or break the JavaScript string of an event handler. " +
 			"Non-trivial = cases whose taint reaches the output; distinct by (tainted positions, surface).",
 		Assumptions: []string{
-			"taint token T<n>x<>\"'&y, also followed by a literal '&nbsp;z' (core.Text treats &nbsp; specially); '@' cannot occur in pointers and '/' not inside the name slashes (GEDCOM itself)",
+			"taint token T<n>x<>\"'&y, also followed and/or preceded by a literal '&nbsp;' (core.Text treats &nbsp; specially); '@' cannot occur in pointers and '/' not inside the name slashes (GEDCOM itself)",
 			"own tokenizer (harness/pub): tags, quoted/unquoted attributes, text, comments, doctype, raw-text elements script/style; anything else is an error of the page",
 			"file names are C19's business",
 		},
